@@ -760,6 +760,10 @@ func (w *c02World) applyDefect(r *s3c.Req, p c02Pred) error {
 		r.Time = now.Add(-time.Duration(16+rng.Intn(600)) * time.Minute)
 	case "date_future":
 		r.Time = now.Add(time.Duration(16+rng.Intn(600)) * time.Minute)
+	case "date_far_past":
+		r.Time = time.Date([]int{1, 1600, 1677, 1700}[rng.Intn(4)], time.Month(1+rng.Intn(12)), 1+rng.Intn(28), rng.Intn(24), 0, 0, 0, time.UTC)
+	case "date_far_future":
+		r.Time = time.Date([]int{2319, 2320, 2400, 5000, 9999}[rng.Intn(5)], time.Month(1+rng.Intn(12)), 1+rng.Intn(28), rng.Intn(24), 0, 0, 0, time.UTC)
 	case "cred_date_mismatch":
 		r.Tweak = func(s *s3c.Signing) { s.ScopeDate = now.Add(-48 * time.Hour).Format("20060102") }
 	case "wrong_region":
